@@ -3,6 +3,7 @@ import json, os
 from lib import vf
 from lib import trxd as T
 from gen import trxd_consts
+from props import msg_reuse_part as reuse
 
 ID = "C15"
 LEVEL = "proof"
@@ -632,6 +633,16 @@ def search(run, corr, deep):
              "failing_cases_in_this_run": len(fails)}
         found += run.report_witness(w)
     found += search_hist(run, corr)
+    # what append_msg() stores is gen_msg() of the message object handed in - also when that object was stored before and
+    # its fields / burst were changed since: the record is the message as it is NOW
+    pool = [("tx", T.rand_valid_tx(run.rng), run.rng.randrange(2)) for _ in range(200)] + \
+           [("rx", T.rand_valid_rx(run.rng), run.rng.randrange(2)) for _ in range(200)]
+    pool = [x for x in pool if not (x[0] == "rx" and x[1].burst is not None and 0x80 in bytes(x[1].burst))]
+    rf = reuse.run(run, corr, pool, True, "C15")
+    if rf:
+        w = reuse.witness(rf[0], len(rf))
+        w["impl"] = w["second_use"]
+        found += run.report_witness(w)
     return found
 
 
@@ -700,6 +711,11 @@ def replay(run, path):
         w = v.get("witness")
         if not w or "request" not in w:
             print("replay: no concrete input recorded (%s)" % json.dumps(v.get("broken") or w)[:400])
+            continue
+        if w.get("kind") == "message-object-reused":
+            still, text = reuse.replay(w)
+            print(text)
+            bad += still
             continue
         a = vf.run_lines(T.HARNESS, [w["request"]], env=henv(run))[0]
         same = a[:400] == w["impl"]
